@@ -211,7 +211,7 @@ def case_qed(log, order, nf, seed_var):
                 for s in range(1, nstep + 1):
                     want = want * Cx.lift(nsq.fixed_alphaem_exact(order, g, as_list[s], as_list[s - 1], aems[s - 1], nfs, steps[s - 1], steps[s]))
                 v = prove_zero(got - want, "exact() with %d steps == ordered product of fixed-alpha_em kernels" % nstep)
-                log.decide(v, key="nsqed.exact:%dsteps" % nstep, replay=None)
+                log.decide(v, key="nsqed.exact:%dsteps" % nstep, replay=(MOD, "replay_exact_steps", {"order": list(order), "nf": nf, "nstep": nstep}), sampler=_sampler)
         log.twin("domain")
         log.collect_ctx()
 
@@ -345,6 +345,39 @@ def replay_qed(point, order, nf, unit=False):
     want = _exp_int(gt[1:], bet, f["a0"], f["a1"]) * mp.exp(mp.mpc(gt[0]) * mp.log(f["mu2_from"] / f["mu2_to"]))
     if _differs(got, want):
         return {"detail": "fixed_alphaem_exact(order=%r, nf=%d) = %r but reference = %s at %r" % (order, nf, got, want, f)}
+    return None
+
+
+def replay_exact_steps(point, order, nf, nstep):
+    """real non_singlet_qed.exact over `nstep` geometric mu^2 steps vs the product of per-step references (quadrature of
+    gamma/beta_shifted times the pure-QED factor over that step only)"""
+    import numpy as np
+    import mpmath as mp
+    import eko.kernels.non_singlet_qed as nsq
+    from eko import beta as B
+
+    f = fpoint({k: v for k, v in point.items() if k in ("a0", "a1", "aem", "mu2_from", "mu2_to")})
+    a0, a1 = f.get("a0", 0.03), f.get("a1", 0.02)
+    m0, m1 = f.get("mu2_from", 5.0), f.get("mu2_to", 200.0)
+    if not (0 < a0 < 0.1 and 0 < a1 < 0.1 and m0 > 0 and m1 > 0 and abs(m0 - m1) > 1e-3):
+        return None
+    oq, oe = order
+    rng = np.random.default_rng(43)
+    g = rng.normal(size=(oq + 1, oe + 1)) + 0.3j
+    g[0, 0] = 0
+    as_list = np.linspace(a0, a1, nstep + 1)
+    aems = np.array([0.0007 + 1e-4 * k for k in range(nstep)])
+    got = complex(nsq.exact(tuple(order), g, as_list, aems, nf, nstep, m0, m1))
+    steps = np.geomspace(m0, m1, nstep + 1)
+    want = mp.mpc(1)
+    for s in range(1, nstep + 1):
+        aem = aems[s - 1]
+        gt = [sum(g[k, j] * aem**j for j in range(oe + 1)) for k in range(oq + 1)]
+        bet = [B.beta_qcd((2 + i, 0), nf) for i in range(oq)]
+        bet[0] += aem * B.beta_qcd((2, 1), nf)
+        want *= _exp_int(gt[1:], bet, as_list[s - 1], as_list[s]) * mp.exp(mp.mpc(gt[0]) * mp.log(steps[s - 1] / steps[s]))
+    if _differs(got, want):
+        return {"detail": "non_singlet_qed.exact (order %r, nf %d, %d steps, mu2 %r -> %r) = %r but the product of per-step references = %s" % (order, nf, nstep, m0, m1, got, want)}
     return None
 
 
